@@ -8,7 +8,7 @@ set -u
 SRC="$1"; SID="$2"; PID="$3"
 REL=""; [ -n "${CONFIRM_RELEASE:-}" ] && REL="--release"
 WT=/var/tmp/rvx-confirm/wt-$SID
-export CARGO_TARGET_DIR=/var/tmp/rvx-confirm/target
+export CARGO_TARGET_DIR=${CONFIRM_TARGET:-/var/tmp/rvx-confirm/target}
 export CARGO_NET_OFFLINE=true
 mkdir -p /var/tmp/rvx-confirm
 git -C /repo worktree remove --force "$WT" >/dev/null 2>&1; rm -rf "$WT"
